@@ -17,7 +17,8 @@ class SubjectGroupsIqProtocolEntity(GroupsIqProtocolEntity):
 
     def toProtocolTreeNode(self):
         node = super(SubjectGroupsIqProtocolEntity, self).toProtocolTreeNode()
-        node.addChild(ProtocolTreeNode("subject",{}, None, self.subject))
+        subject = self.subject if type(self.subject) is bytes else self.subject.encode("utf-8")
+        node.addChild(ProtocolTreeNode("subject",{}, None, subject))
         return node
 
     @staticmethod
